@@ -601,6 +601,15 @@ class PX:
                 return INT(idx)
         return ('discr', v, ty)
 
+    def snap(self, st, v):
+        """make a pure term self-contained: a reference to a local becomes a by-value reference to its current value"""
+        if v[0] == 'ref' and self.root(v[1])[0] == 'L':
+            return ('cref', self.read(st, v[1]))
+        return v
+
+    def snap_args(self, st, args):
+        return tuple(self.snap(st, a) for a in args)
+
     def subject_of(self, st, ptr):
         """canonical place of the byte string a pointer value designates"""
         if ptr[0] == 'cref':
